@@ -92,11 +92,11 @@ func GenHistory(rt *rapid.T, o GenOpts) History {
 	for _, k := range focus {
 		switch k {
 		case Samples, Series:
-			protos = append(protos, "loki", "prom", "mixed")
+			protos = append(protos, "loki", "prom", "mixed", "cf")
 		case Metrics:
 			protos = append(protos, "prom")
 		case Spans, Tags:
-			protos = append(protos, "zipkin", "otlp")
+			protos = append(protos, "zipkin", "otlp", "zipkin-nd")
 		case Profile:
 			protos = append(protos, "profile")
 		}
@@ -192,9 +192,9 @@ func DrawRetries(rt *rapid.T, c *Config) {
 // service whose flush asks for the flush of the second (OnBeforeInsert).
 func KindsOfProto(proto string) []Kind {
 	switch proto {
-	case "loki", "prom", "mixed":
+	case "loki", "prom", "mixed", "cf":
 		return []Kind{Samples, Series}
-	case "zipkin", "otlp":
+	case "zipkin", "otlp", "zipkin-nd":
 		return []Kind{Spans, Tags}
 	case "profile":
 		return []Kind{Profile}
